@@ -174,6 +174,9 @@ func traitRemove(has []*traits.Trait, remove ...trait.Name) []*traits.Trait {
 		if insertIndex == len(has) {
 			continue // t isn't in has, nothing to do this iteration
 		}
+		if has[insertIndex].Name != ts {
+			continue // t isn't in has either, insertIndex is where it would be
+		}
 		copy(has[insertIndex:], has[insertIndex+1:])
 		has = has[:len(has)-1]
 	}
